@@ -478,19 +478,33 @@ func genIdempotency(r *vc.Rand) *Scenario {
 			if a > 0 && r.Chance(1, 6) {
 				// the key comes back with another kind of write (a client bug, or a key that is too coarse): whatever the
 				// answer - an error, or as the code stands a crash of the request - nothing more may take effect under the key
+				// (another kind = another kind of log entry: a script and a posting list both produce a transaction entry, and
+				// the second of those is legitimately answered with the first one's transaction)
 				var x Op
-				switch r.Intn(3) {
-				case 0:
+				switch d.op.Kind {
+				case "script", "postings":
+					if r.Bool() {
+						x = g.saveMetaAcc(vc.Pick(r, accts), map[string]string{"x": "1"})
+					} else {
+						x = g.delMetaAcc(vc.Pick(r, accts))
+					}
+				case "savemeta":
+					if r.Bool() {
+						x = g.delMetaAcc(vc.Pick(r, accts))
+					} else {
+						x = g.send("alice", "sink", 1, "", "literal")
+					}
+				case "delmeta":
+					if r.Bool() {
+						x = g.saveMetaAcc(vc.Pick(r, accts), map[string]string{"x": "1"})
+					} else {
+						x = g.send("alice", "sink", 1, "", "literal")
+					}
+				default: // revert
 					x = g.saveMetaAcc(vc.Pick(r, accts), map[string]string{"x": "1"})
-				case 1:
-					x = g.delMetaAcc(vc.Pick(r, accts))
-				default:
-					x = g.send("alice", "sink", 1, "", "literal")
 				}
-				if x.Kind != d.op.Kind || x.Kind == "script" && d.op.Kind != "script" {
-					x.IK, x.Attempt = d.op.IK, attempt
-					op = x
-				}
+				x.IK, x.Attempt = d.op.IK, attempt
+				op = x
 			}
 			if a > 0 && r.Chance(1, 4) {
 				retry = append(retry, op) // issued after a restart
@@ -947,6 +961,19 @@ func genWritesForEvents(r *vc.Rand) *Scenario {
 		retry.Attempt = 2
 		c := r.Intn(len(last.Clients))
 		last.Clients[c].Ops = append(last.Clients[c].Ops, op, retry)
+	}
+	if r.Chance(1, 3) { // one key, two metadata writes of the same kind with different payloads: the second is a replay of the first
+		og := &opGen{r: r, n: 5000}
+		c := r.Intn(len(last.Clients))
+		var a, b Op
+		if r.Bool() {
+			a, b = og.saveMetaAcc("alice", map[string]string{"a": "1"}), og.saveMetaAcc("bob", map[string]string{"b": "2"})
+		} else {
+			a, b = og.delMetaAcc("alice"), og.delMetaAcc("bob")
+		}
+		a.IK = "ik-" + a.Tag
+		b.IK, b.Attempt = a.IK, 2
+		last.Clients[c].Ops = append(last.Clients[c].Ops, a, b)
 	}
 	for pi := range sc.Phases { // every field of the entry must be in the event: references and client timestamps too
 		for c := range sc.Phases[pi].Clients {
